@@ -47,3 +47,5 @@ def run(ctx):
     S.r02_2_attrset(ctx, 'R01.12')
     R3.r01_13_extras_partition(ctx, 'R01.13')
     R3.r03_15_tag_class_direction(ctx, 'R01.14')
+    from . import memo_rules as M
+    M.memo_sound(ctx, 'R01.M')
